@@ -329,6 +329,29 @@ def DSt.apply (s : DSt) : DOp → Option (DSt × DRes)
   | .next e => some (s, .ptr (s.nodeNext e))
   | .prev e => some (s, .ptr (s.nodePrev e))
 
+/-- Run a list of calls on the memory, collecting the results (`none` = some call panicked). -/
+def DSt.run : DSt → List DOp → Option (DSt × List DRes)
+  | s, [] => some (s, [])
+  | s, op :: ops => do
+    let (s1, r) ← s.apply op
+    let (s2, rs) ← s1.run ops
+    pure (s2, r :: rs)
+
+/-- `for v := range l.All() { body }` / `for e := l.Front(); e != nil; e = e.Next() { body }`
+(iter.go: the two are the same loop): the cursor stands on `e`; the value is read, then the loop
+body runs — the calls `body i` at the `i`-th iteration, through handles the caller holds — and
+only THEN `e.Next()` is evaluated, in the memory the body left behind.  `stop i` = the body
+breaks.  Yields (node, value) pairs; the flag is false when `fuel` ran out. -/
+def DSt.rangeAll (body : Nat → List DOp) (stop : Nat → Bool) :
+    Nat → Nat → Ptr → DSt → List (Nat × Int) → Option (DSt × List (Nat × Int) × Bool)
+  | _, _, none, s, acc => some (s, acc.reverse, true)
+  | 0, _, some _, s, acc => some (s, acc.reverse, false)
+  | f + 1, i, some e, s, acc => do
+    let y := (e, s.val.get e)
+    let (s1, _) ← s.run (body i)
+    if stop i then some (s1, (y :: acc).reverse, true)
+    else DSt.rangeAll body stop f (i + 1) (s1.nodeNext e) s1 (y :: acc)
+
 def showRes : DRes → String
   | .unit => "ok"
   | .ptr p => showPtr p
@@ -391,6 +414,28 @@ def DSt.removeN (l : Nat) (back : Bool) : Nat → DSt → Option DSt
       let (s1, _) ← s.apply (.remove l e)
       DSt.removeN l back k s1
 
+/-- Script of a loop body: tokens `k:op:args…` (the call `op args…` at iteration `k`) and
+`k:break`. -/
+def parseBody {Op : Type} (parse : List String → Option Op) :
+    List String → Option (List (Nat × Op) × List Nat)
+  | [] => some ([], [])
+  | tok :: rest => do
+    let (ops, brk) ← parseBody parse rest
+    match tok.splitOn ":" with
+    | k :: "break" :: [] => do let k ← k.toNat?; pure (ops, k :: brk)
+    | k :: more => do
+      let k ← k.toNat?
+      let op ← parse more
+      pure ((k, op) :: ops, brk)
+    | [] => none
+
+def bodyAt {Op : Type} (ops : List (Nat × Op)) (i : Nat) : List Op :=
+  (ops.filter fun p => p.1 == i).map fun p => p.2
+
+def showYield (ys : List (Nat × Int)) (ids : Bool) (ok : Bool) : String :=
+  "y[" ++ " ".intercalate (ys.map (fun y => if ids then toString y.1 else toString y.2) ++
+    if ok then [] else ["!"]) ++ "]"
+
 /-- Bulk lines (expanded into calls of `DSt.apply`). -/
 def DSt.stepBulk (s : DSt) (ts : List String) : Option (Option (DSt × String)) :=
   match ts with
@@ -403,6 +448,16 @@ def DSt.stepBulk (s : DSt) (ts : List String) : Option (Option (DSt × String)) 
   | ["removebn", l, k] => do
     let l ← parseList s l; let k ← k.toNat?
     pure ((DSt.removeN l true k s).map fun s1 => (s1, "ok"))
+  | "allbody" :: l :: script => do
+    let l ← parseList s l
+    let (ops, brk) ← parseBody (parseDOp s) script
+    pure ((DSt.rangeAll (bodyAt ops) (fun i => brk.contains i) bigCap 0 (s.front l) s []).map
+      fun (s1, ys, ok) => (s1, showYield ys false ok))
+  | "walkbody" :: l :: script => do
+    let l ← parseList s l
+    let (ops, brk) ← parseBody (parseDOp s) script
+    pure ((DSt.rangeAll (bodyAt ops) (fun i => brk.contains i) bigCap 0 (s.front l) s []).map
+      fun (s1, ys, ok) => (s1, showYield ys true ok))
   | _ => s.step ts
 
 def runDOps (big : Bool) : Option DSt → List String → List String
